@@ -56,7 +56,7 @@ PROPS = {
         "design_ref": "DESIGN.md §3.14, §4 C02",
     },
     "C15": {
-        "rules": ["BACKPIPE", "TRAV@C15", "TRAVBASE", "MEMGATE", "CALLBOUNDARY", "TYPETABLES", "EXH", "FRESHNAME"],
+        "rules": ["BACKPIPE", "TRAV@C15", "TRAVBASE", "MEMGATE", "CALLBOUNDARY", "TYPETABLES", "CONDSPEC", "EXH", "FRESHNAME"],
         "thorough": [],
         "technique": "static analysis: pipeline def-use chain, traversal completeness of the global collectors, gate-dominance and call-boundary checks, type-table agreement",
         "level_text": "Structural clauses: every compiled procedure (transitively) passes Parallel/Precision/Window/Memory analysis in that order before "
@@ -136,7 +136,7 @@ PROPS = {
         "design_ref": "DESIGN.md §3.5, §3.16, §4 C05",
     },
     "C10": {
-        "rules": ["CFGMOD", "EQVGATE", "CFGSHAPE", "EQVSHAPE", "VERDICT"],
+        "rules": ["CFGMOD", "EQVGATE", "CFGSHAPE", "EQVSHAPE", "CONDSPEC", "VERDICT"],
         "thorough": [],
         "technique": "static analysis: must-call + def-use threading of the changed-field set from the check to the recorded derivation; dominance of the equivalence gate over the callee swap",
         "level_text": "Structural clauses: every primitive that inserts or deletes a configuration write or swaps a callee obtains the possibly-changed field set from "
@@ -176,7 +176,7 @@ PROPS = {
         "design_ref": "DESIGN.md §3.19, §4 C19",
     },
     "C12": {
-        "rules": ["NAMECONF", "DELGUARD", "MODGUARD", "ALGID", "CONDSPEC", "EXH", "TRAV@C12"],
+        "rules": ["NAMECONF", "DELGUARD", "MODGUARD", "DIVACCOUNT", "ALGID", "CONDSPEC", "EXH", "TRAV@C12"],
         "thorough": [],
         "technique": "static analysis: identity-by-printed-name rule with triaged site table; dominance (must-facts with branch conditions) of literal tests over every delete/move in simplify; exhaustiveness/traversal of the two rewriters",
         "level_text": "Structural clauses: every place where simplify (or a rewrite it relies on) decides expression identity through printed names is enumerated and classified; "
